@@ -617,7 +617,7 @@ package shaping
 //@ trusted std:unicodedata.LookupVerticalOrientation
 //@   ensures [for-this-script] result.script == s
 //@   modifies nothing
-//@ func Segmenter.splitByVertOrientation C07
+//@ func Segmenter.splitByVertOrientation C07 C08
 //@   mode int
 //@   requires [inputs-in-text] forall(k, 0, len(seg.input), 0 <= seg.input[k].RunStart && seg.input[k].RunStart <= seg.input[k].RunEnd && seg.input[k].RunEnd <= len(seg.input[k].Text))
 //@   requires [buffers-distinct] rid(seg.input) != rid(seg.output) || len(seg.input) == 0
